@@ -456,6 +456,16 @@ Definition overlap_outcomes (T : PM.t ostate) (w : wpc) (r : runst) (p : replst)
   filter quiescent
     (states (closure_from true pol_none (map (fun s => up_m (first_pc c) s) (held_at T w r p)))).
 
+(* the same when the run thread is not held any more at the moment the command
+   is issued (the gate has let it go): all that is known is the shared state
+   (r, p) seen at that moment, with the command thread idle *)
+Definition idle_with (T : PM.t ostate) (r : runst) (p : replst) : list ostate :=
+  filter (fun s => mpc_idle (o_m s) && runst_eqb (o_rs s) r && replst_eqb (o_ps s) p && negb (o_det s))
+         (states T).
+
+Definition overlap_outcomes_from (loose : bool) (starts : list ostate) (c : ocmd) : list ostate :=
+  filter quiescent (states (closure_from loose pol_none (map (fun s => up_m (first_pc c) s) starts))).
+
 (* what the harness can see of a quiescent state *)
 Record oview := mkOview {
   v_rs : runst; v_ps : replst; v_alive : bool;
@@ -482,3 +492,12 @@ Definition oview_eqb (a b : oview) : bool :=
 
 Definition overlap_allows (T : PM.t ostate) (w : wpc) (r : runst) (p : replst) (c : ocmd) (v : oview) : bool :=
   existsb (fun s => oview_eqb (view_of s) v) (overlap_outcomes T w r p c).
+
+(* [loose]: whether the one-second waits may give up while the run thread is
+   still making progress (needed when a gate holds a thread for longer);
+   [w = None]: the run thread was no longer held when the command was issued *)
+Definition overlap_allows_gen (loose : bool) (T : PM.t ostate) (w : option wpc) (r : runst) (p : replst)
+           (c : ocmd) (v : oview) : bool :=
+  existsb (fun s => oview_eqb (view_of s) v)
+          (overlap_outcomes_from loose
+             (match w with Some w => held_at T w r p | None => idle_with T r p end) c).
